@@ -706,3 +706,81 @@ def returns_by_none(w: 'GuardWalk', term: str) -> Optional[Dict[bool, str]]:
         else:
             out[isnone] = 'None'
     return out
+
+
+def truth_under(f, atom_truth) -> Optional[bool]:
+    """three-valued truth of a guard when `atom_truth(expr) -> True/False/None` decides atoms"""
+    k = f[0]
+    if k in ('true', 'iter'):
+        return True
+    if k == 'false':
+        return False
+    if k == 'not':
+        t = truth_under(f[1], atom_truth)
+        return None if t is None else not t
+    if k in ('and', 'or'):
+        vals = [truth_under(x, atom_truth) for x in f[1:]]
+        if k == 'and':
+            if any(v is False for v in vals):
+                return False
+            return True if all(v is True for v in vals) else None
+        if any(v is True for v in vals):
+            return True
+        return False if all(v is False for v in vals) else None
+    if k == 'atom':
+        e, neg = f[1], False
+        while isinstance(e, ast.UnaryOp) and isinstance(e.op, ast.Not):
+            e, neg = e.operand, not neg
+        t = atom_truth(e)
+        return None if t is None else (t != neg)
+    return None
+
+
+def expand_under(w: 'GuardWalk', e: ast.AST, atom_truth, depth: int = 8) -> ast.AST:
+    """expansion of locals for the executions selected by a valuation of the atoms: a local
+    assigned on several paths denotes the last assignment whose path condition holds"""
+    import copy as _copy
+
+    class Sub(ast.NodeTransformer):
+        def __init__(self, d, bound=frozenset()):
+            self.d, self.bound = d, bound
+
+        def _comp(self, n):
+            bound = set(self.bound)
+            for g in n.generators:
+                for x in ast.walk(g.target):
+                    if isinstance(x, ast.Name):
+                        bound.add(x.id)
+            sub = Sub(self.d, frozenset(bound))
+            n = _copy.deepcopy(n)
+            for g in n.generators:
+                g.iter = sub.visit(g.iter)
+                g.ifs = [sub.visit(c) for c in g.ifs]
+            if isinstance(n, ast.DictComp):
+                n.key, n.value = sub.visit(n.key), sub.visit(n.value)
+            else:
+                n.elt = sub.visit(n.elt)
+            return n
+        visit_ListComp = visit_SetComp = visit_GeneratorExp = visit_DictComp = _comp
+
+        def visit_Lambda(self, n):
+            return n
+
+        def visit_Name(self, n):
+            if not isinstance(n.ctx, ast.Load) or n.id in self.bound or self.d <= 0 or \
+                    n.id in w.params:
+                return n
+            ds = w.defs.get(n.id, [])
+            if not ds or any(d[0] != 'value' or d[4] for d in ds):
+                if len(ds) == 1 and ds[0][0] == 'unpack':
+                    val, i = ds[0][1]
+                    base = Sub(self.d - 1, self.bound).visit(_copy.deepcopy(val))
+                    if isinstance(base, (ast.Tuple, ast.List)) and i < len(base.elts):
+                        return base.elts[i]
+                return n
+            live = [d for d in ds if truth_under(strip_iter(d[3]), atom_truth) is True]
+            maybe = [d for d in ds if truth_under(strip_iter(d[3]), atom_truth) is None]
+            if maybe or not live:
+                return n
+            return Sub(self.d - 1, self.bound).visit(_copy.deepcopy(live[-1][1]))
+    return Sub(depth).visit(_copy.deepcopy(e))
